@@ -3,7 +3,7 @@ import itertools
 
 import numpy as np
 
-NAMES = ['a', 'b', 'c', 'd', 'e', 'f', 'g', 'h', 'i', 'j', 'k', 'l']
+NAMES = ['a', 'bb', 'c', 'd4', 'e', 'f_', 'g', 'hh', 'i', 'j', 'k', 'l']
 
 
 def pick(rng, seq):
